@@ -537,6 +537,54 @@ func genCase(rng *h.Rng) []string {
 		lastUpd = fmt.Sprintf("upd c%d %s", c, u)
 		return lastUpd
 	}
+	if rng.Chance(7) {
+		// Directed shape: a config shared by two jobs loses one subscriber, has all its sources emptied,
+		// then gets the subscriber back (stale per-subscriber entries must not resurface); with filler ops.
+		a, b := 1, 2
+		c := 1 + rng.Intn(3)
+		filler := func() {
+			for rng.Chance(35) {
+				switch rng.Intn(3) {
+				case 0:
+					script = append(script, "recv")
+				case 1:
+					script = append(script, fmt.Sprintf("sleep %d", []int{1, 30, 120}[rng.Intn(3)]))
+				default:
+					script = append(script, "sync")
+				}
+			}
+		}
+		script = append(script, fmt.Sprintf("cfg j%d=c%d;j%d=c%d", a, c, b, c))
+		var srcs []int
+		var toks []string
+		for s := 1; s <= 1+rng.Intn(3); s++ {
+			ver++
+			srcs = append(srcs, s)
+			toks = append(toks, fmt.Sprintf("s%d:%d:%d", s, ver, 1+rng.Intn(3)))
+		}
+		script = append(script, fmt.Sprintf("upd c%d %s", c, strings.Join(toks, ",")))
+		filler()
+		other := ""
+		if rng.Bool() {
+			other = fmt.Sprintf("c%d", 1+c%3)
+		}
+		script = append(script, fmt.Sprintf("cfg j%d=c%d;j%d=%s", a, c, b, other))
+		filler()
+		toks = nil
+		for _, s := range srcs {
+			ver++
+			toks = append(toks, fmt.Sprintf("s%d:%d:0", s, ver))
+		}
+		if rng.Chance(25) && len(toks) > 1 {
+			toks = toks[1:] // one source survives: the copy path instead
+		}
+		script = append(script, fmt.Sprintf("upd c%d %s", c, strings.Join(toks, ",")))
+		filler()
+		script = append(script, fmt.Sprintf("cfg j%d=c%d;j%d=c%d", a, c, b, c))
+		filler()
+		script = append(script, "quiesce")
+		return script
+	}
 	script = append(script, "cfg "+genCfg())
 	n := 4 + rng.Intn(16)
 	for i := 0; i < n; i++ {
